@@ -313,6 +313,7 @@ func runC13(c *core.Ctx, r *core.Reporter) {
 	c13curpkg(c, r)
 	c13qualified(c, r)
 	c13pkgarg(c, r)
+	c13useexport(c, r)
 	an := lenflow.New(c)
 	const push = "C13.push"
 	const own = "C13.own"
